@@ -31,6 +31,7 @@ import (
 	"sync/atomic"
 	"time"
 
+	"github.com/smallstep/linkedca"
 	"go.step.sm/crypto/jose"
 	"golang.org/x/crypto/ssh"
 
@@ -55,8 +56,10 @@ type APICase struct {
 	UVA, UVB TD
 	CType    uint32
 	// migrate
+	Bad    string // xsign: a notAfter that is neither a date nor a duration
 	SSH    bool // enableSSHCA in the provisioner's claims
 	Reload bool // start a second authority on the same database
+	P2     *ClaimSet // migrate: claims then sent through Authority.UpdateProvisioner (what PUT /admin/provisioners does)
 }
 
 func (k *APICase) base() *RenewCase {
@@ -115,6 +118,9 @@ func (k *APICase) runAll() (out [][2]string) {
 	defer restore()
 	ctx := context.Background()
 
+	if k.Kind == "xsign" {
+		return k.runXSign(a, g, base)
+	}
 	if k.Kind == "sign" {
 		// /ssh/sign with an identity CSR
 		uva, uvaS := k.UVA.build(base)
@@ -251,6 +257,109 @@ func (k *APICase) runAll() (out [][2]string) {
 	return append(out, [2]string{line, res})
 }
 
+// tdJSON: a requested date as a client writes it (RFC 3339 in some zone, or a Go duration); the model sees the
+// instant / duration it denotes.
+func tdJSON(d TD, base time.Time, zone int) (js string, model string) {
+	switch d.Kind {
+	case 1:
+		t := d.T.at(base)
+		if t.IsZero() || t.Year() < 0 || t.Year() > 9999 {
+			return "", "-"
+		}
+		loc := []*time.Location{time.UTC, time.FixedZone("", 5*3600+1800), time.FixedZone("", -8*3600), time.FixedZone("", 14*3600)}[zone%4]
+		return t.In(loc).Format(time.RFC3339Nano), "t" + timeS(t)
+	case 2:
+		if d.D == 0 {
+			return "", "-"
+		}
+		return time.Duration(d.D).String(), "d" + fmt.Sprint(d.D)
+	}
+	return "", "-"
+}
+
+// runXSign: POST /1.0/sign with notBefore / notAfter as JSON strings, then /1.0/renew and /1.0/rekey with the issued
+// certificate as TLS client certificate.
+func (k *APICase) runXSign(a *authority.Authority, g Full, base time.Time) (out [][2]string) {
+	e := getEnv()
+	tok, err := (&RenewCase{Prov: "jwk"}).token("https://ca.verif.test/1.0/sign", "leaf.verif.test", nil, time.Time{}, time.Time{})
+	if err != nil {
+		return nil
+	}
+	nbJS, nbM := tdJSON(k.UVA, base, int(k.Age))
+	naJS, naM := tdJSON(k.UVB, base, int(k.Age)+1)
+	body := map[string]any{"csr": api.CertificateRequest{CertificateRequest: e.csr}, "ott": tok}
+	if nbJS != "" {
+		body["notBefore"] = nbJS
+	}
+	if naJS != "" {
+		body["notAfter"] = naJS
+	}
+	if k.Bad != "" {
+		body["notAfter"] = k.Bad
+	}
+	t0 := time.Now()
+	rec, crashed := callAPI(a, api.Sign, body, nil)
+	if t1 := time.Now(); t1.Unix() != t0.Unix() {
+		return append(out, [2]string{"skip reason=clock-tick", "skip"})
+	}
+	if k.Bad != "" {
+		// not a date and not a duration: the request must be refused before anything is signed
+		res := "skip" // refused, as the model's `skip` line expects
+		if crashed {
+			res = "crash"
+		} else if rec.Code == 201 {
+			res = "accepted-unparseable"
+		}
+		return append(out, [2]string{"skip reason=malformed-date", res})
+	}
+	line := fmt.Sprintf("x509 e2e=1 cas=1 mode=def lnb=0:0 lna=0:0 g=%s p=%s bd=%d now=%s vnow=%s snb=%s sna=%s cnb=0:0 cna=0:0",
+		g, k.P, k.Backdate, timeS(base), timeS(t0), nbM, naM)
+	if crashed {
+		return append(out, [2]string{line, "crash"})
+	}
+	if rec.Code != 201 {
+		return append(out, [2]string{line, "rej"})
+	}
+	var resp api.SignResponse
+	if err := json.Unmarshal(rec.Body.Bytes(), &resp); err != nil || resp.ServerPEM.Certificate == nil {
+		return append(out, [2]string{line, "badjson"})
+	}
+	crt := resp.ServerPEM.Certificate
+	out = append(out, [2]string{line, fmt.Sprintf("ok cert=%d,%d", crt.NotBefore.Unix()+unixToInternal, crt.NotAfter.Unix()+unixToInternal)})
+	if !crt.NotBefore.Before(time.Now().Add(-time.Second)) || !crt.NotAfter.After(time.Now().Add(2*time.Second)) {
+		return out // renewal is gated on the certificate being valid now (C09)
+	}
+	for _, op := range []string{"renew", "rekey"} {
+		var h http.HandlerFunc = api.Renew
+		var rb any = map[string]any{}
+		if op == "rekey" {
+			h, rb = api.Rekey, map[string]any{"csr": api.CertificateRequest{CertificateRequest: e.csr}}
+		}
+		r0 := time.Now()
+		rec, crashed := callAPI(a, h, rb, crt)
+		r1 := time.Now()
+		rl := fmt.Sprintf("xrenew op=%s casnow=%s bd=%d onb=%s ona=%s", op, timeS(r0), k.Backdate, timeS(crt.NotBefore), timeS(crt.NotAfter))
+		if crashed {
+			out = append(out, [2]string{rl, "crash"})
+			continue
+		}
+		var rr api.SignResponse
+		if rec.Code != 201 || json.Unmarshal(rec.Body.Bytes(), &rr) != nil || rr.ServerPEM.Certificate == nil {
+			out = append(out, [2]string{rl, "rej:500:cas"})
+			continue
+		}
+		nc := rr.ServerPEM.Certificate
+		lo := r0.Add(-time.Duration(k.Backdate)).Truncate(time.Second)
+		hi := r1.Add(-time.Duration(k.Backdate)).Truncate(time.Second)
+		off := "0"
+		if nc.NotBefore.Before(lo) || nc.NotBefore.After(hi) {
+			off = fmt.Sprint(nc.NotBefore.Sub(lo))
+		}
+		out = append(out, [2]string{rl, fmt.Sprintf("ok d=%d nboff=%s", nc.NotAfter.Unix()-nc.NotBefore.Unix(), off)})
+	}
+	return out
+}
+
 var popSeq int64
 
 // sshpopToken: a JWT signed with the certificate's key, the certificate in the `sshpop` header.
@@ -312,6 +421,45 @@ func (k *APICase) runMigrate() (out [][2]string) {
 		dbg("migrate", err)
 		return append(out, [2]string{"skip reason=migrate-start", "skip"})
 	}
+	if k.P2 != nil {
+		// an administrator replaces the claims: linkedca form as the admin client writes it, then the authority's update path
+		p0, err := a.LoadProvisionerByName("jwk")
+		if err != nil {
+			return append(out, [2]string{line, "noprov"})
+		}
+		if un, isUn := p0.(provisioner.Uninitialized); isUn {
+			p0 = un.Interface
+		}
+		lp, err := authority.ProvisionerToLinkedca(p0)
+		if err != nil {
+			return append(out, [2]string{line, "err"})
+		}
+		ds := func(p *int64) string {
+			if p == nil {
+				return ""
+			}
+			return time.Duration(*p).String()
+		}
+		blk := func(a, b, d *int64) *linkedca.Durations {
+			if a == nil && b == nil && d == nil {
+				return nil
+			}
+			return &linkedca.Durations{Min: ds(a), Max: ds(b), Default: ds(d)}
+		}
+		lc := &linkedca.Claims{}
+		if x := blk(k.P2[0], k.P2[1], k.P2[2]); x != nil {
+			lc.X509 = &linkedca.X509Claims{Enabled: true, Durations: x}
+		}
+		if k.SSH {
+			lc.Ssh = &linkedca.SSHClaims{Enabled: true, UserDurations: blk(k.P2[3], k.P2[4], k.P2[5]), HostDurations: blk(k.P2[6], k.P2[7], k.P2[8])}
+		}
+		lp.Claims = lc
+		line = fmt.Sprintf("migrate a=%s p=%s ssh=%s reload=%s", k.A, k.P2, c.B(k.SSH), c.B(k.Reload))
+		if err := a.UpdateProvisioner(context.Background(), lp); err != nil {
+			a.Shutdown()
+			return append(out, [2]string{line, "a=ok p=bad"})
+		}
+	}
 	if k.Reload {
 		a.Shutdown()
 		if a, err = start(); err != nil {
@@ -358,12 +506,46 @@ func genAPI(r *c.Rng) *Case {
 		if r.Chance(1, 4) {
 			k.P = genClaimSet(r, true)
 		}
+		if r.Chance(1, 3) { // then updated through the admin path
+			k.P, k.P2 = genClaimSet(r, false), &s
+			if k.P2 == nil {
+				k.P2 = &ClaimSet{}
+			}
+		}
 		return &Case{API: k}
 	}
-	k := &APICase{Kind: c.Pick(r, []string{"renew", "rekey", "rekey", "sign"}), CType: 2, Backdate: c.Pick(r, backdates), NoTLS: r.Chance(1, 8)}
+	k := &APICase{Kind: c.Pick(r, []string{"renew", "rekey", "rekey", "sign", "xsign", "xsign"}), CType: 2, Backdate: c.Pick(r, backdates), NoTLS: r.Chance(1, 8)}
 	k.A = genClaimSet(r, false)
 	k.P = genClaimSet(r, false)
 	g := fullOf(claimer(hard, k.A).Claims())
+	if k.Kind == "xsign" {
+		mn, mx, df := tlsOf(g, k.P)
+		k.Age = int64(r.Intn(4)) // time zone of the JSON dates
+		start := int64(0)
+		switch r.Intn(6) {
+		case 0, 1:
+			start = c.Pick(r, []int64{-hr, -min, min, hr, sec, 500 * ms})
+			k.UVA = TD{Kind: 1, T: T{Rel: true, Off: start}}
+		case 2:
+			start = c.Pick(r, []int64{-hr, -min, min, hr})
+			k.UVA = TD{Kind: 2, D: start}
+		}
+		end := addSat(c.Pick(r, []int64{mn, mx, addSat(mx, k.Backdate), df}), c.Pick(r, smallOffs))
+		switch r.Intn(6) {
+		case 0, 1:
+			k.UVB = TD{Kind: 1, T: T{Rel: true, Off: addSat(start, end)}}
+		case 2, 3:
+			k.UVB = TD{Kind: 2, D: end}
+		case 4:
+			if s := pickWitness(r, mn, addSat(mx, k.Backdate), 13); s != 0 {
+				k.UVB = TD{Kind: 1, T: T{Rel: true, Off: start, Sec: int64(s)}}
+			}
+		}
+		if r.Chance(1, 15) {
+			k.Bad = c.Pick(r, []string{"tomorrow", "1d", "2026-13-01T00:00:00Z", "24", "1h 30m", "٣h"})
+		}
+		return &Case{API: k}
+	}
 	if k.Kind == "sign" {
 		k.CType = uint32(1 + r.Intn(2))
 		mn, mx, _ := sshOf(g, k.P, k.CType)
@@ -417,6 +599,10 @@ func cornerAPI() []*Case {
 		{API: &APICase{Kind: "rekey", Backdate: min, Age: 3600, Dur: 3600}},
 		{API: &APICase{Kind: "renew", Backdate: min, Age: 3600, Dur: 3601}},
 		{API: &APICase{Kind: "rekey", Backdate: min, Age: 3600, AbsVB: 1 << 63}},
+		{API: &APICase{Kind: "xsign", Backdate: min}},
+		{API: &APICase{Kind: "xsign", Backdate: min, Age: 1, UVA: TD{Kind: 1, T: T{Rel: true, Off: -hr}}, UVB: TD{Kind: 2, D: 2 * hr}}},
+		{API: &APICase{Kind: "xsign", Backdate: min, Age: 2, UVB: TD{Kind: 1, T: T{Rel: true, Off: dy + min + sec}}}},
+		{API: &APICase{Kind: "xsign", Backdate: min, Bad: "tomorrow"}},
 		{API: &APICase{Kind: "sign", Backdate: min, CType: 1}},
 		{API: &APICase{Kind: "sign", Backdate: min, CType: 2, UVB: TD{Kind: 2, D: 2 * hr}}},
 		// migration: only the maximum overridden (authority default 1 h), only the default, everything
@@ -427,6 +613,8 @@ func cornerAPI() []*Case {
 		{API: &APICase{Kind: "migrate", P: &ClaimSet{nil, nil, nil, nil, p64(48 * hr), nil, nil, nil, nil}, SSH: true, Reload: true}},
 		{API: &APICase{Kind: "migrate", P: &ClaimSet{nil, nil, nil, nil, p64(48 * hr), nil, nil, nil, nil}, SSH: false}},
 		{API: &APICase{Kind: "migrate"}},
+		{API: &APICase{Kind: "migrate", P: &ClaimSet{nil, p64(2 * hr)}, P2: &ClaimSet{nil, p64(36 * hr), p64(30 * hr)}, Reload: true}},
+		{API: &APICase{Kind: "migrate", P2: &ClaimSet{nil, p64(hr), p64(2 * hr)}}},
 	}
 }
 
